@@ -2,6 +2,8 @@ package executor
 
 import (
 	"errors"
+	"sort"
+	"strings"
 
 	"github.com/buildbuildio/pebbles/common"
 	"github.com/buildbuildio/pebbles/planner"
@@ -23,17 +25,35 @@ func (de *DepthExecutor) Execute(ers []*ExecutionRequest) (*DepthExecutorRespons
 		return nil, errors.New("empty request list")
 	}
 
+	// the requests arrive in the order in which the steps of the previous depth happened to
+	// finish. Give every batch a fixed composition and order, so that what a service is asked,
+	// and which of several failures is reported, does not change from run to run
+	sort.SliceStable(ers, func(i, j int) bool {
+		pi, pj := strings.Join(ers[i].InsertionPoint, "."), strings.Join(ers[j].InsertionPoint, ".")
+		if pi != pj {
+			return pi < pj
+		}
+		return ers[i].QueryPlanStep.URL < ers[j].QueryPlanStep.URL
+	})
+
 	// group by requests by corresponding queryer
 	groupedRequests := lo.PartitionBy(ers, func(x *ExecutionRequest) string {
 		return x.QueryPlanStep.URL
 	})
 
-	res, err := common.AsyncMapReduce(
-		groupedRequests,
-		new(DepthExecutorResponse),
-		func(field []*ExecutionRequest) (*DepthExecutorResponse, error) {
+	// every group is answered at its own position, and the answers are put together in the
+	// order of the groups: results which touch the same object are merged in a fixed order
+	type groupResponse struct {
+		index int
+		resp  *DepthExecutorResponse
+	}
+
+	groupResponses, err := common.AsyncMapReduce(
+		lo.Range(len(groupedRequests)),
+		make([]*DepthExecutorResponse, len(groupedRequests)),
+		func(index int) (*groupResponse, error) {
 			// compute general values like query variables, operationName and etc.
-			qResps, err := de.executeRequests(field)
+			qResps, err := de.executeRequests(groupedRequests[index])
 			if err != nil {
 				return nil, err
 			}
@@ -44,17 +64,22 @@ func (de *DepthExecutor) Execute(ers []*ExecutionRequest) (*DepthExecutorRespons
 				return nil, err
 			}
 
-			return res, nil
+			return &groupResponse{index: index, resp: res}, nil
 		},
-		func(acc *DepthExecutorResponse, value *DepthExecutorResponse) *DepthExecutorResponse {
-			acc.ExecutionResults = append(acc.ExecutionResults, value.ExecutionResults...)
-			acc.NextExecutionRequests = append(acc.NextExecutionRequests, value.NextExecutionRequests...)
+		func(acc []*DepthExecutorResponse, value *groupResponse) []*DepthExecutorResponse {
+			acc[value.index] = value.resp
 			return acc
 		},
 	)
 
 	if err != nil {
 		return nil, err
+	}
+
+	res := new(DepthExecutorResponse)
+	for _, groupResp := range groupResponses {
+		res.ExecutionResults = append(res.ExecutionResults, groupResp.ExecutionResults...)
+		res.NextExecutionRequests = append(res.NextExecutionRequests, groupResp.NextExecutionRequests...)
 	}
 
 	return res, nil
